@@ -9,7 +9,6 @@ Inductive c10_case :=
 | KCmp (k1 : bytes) (r1 : N) (k2 : bytes) (r2 : N) (c : Z)      (* bytes.Compare of two real encodings *)
 | KPfx (p : bytes) (out : bytes)                                (* PrefixEnd *)
 | KPar (b : bytes) (out : option (N * bool))                    (* ParseRevision *)
-| KU64 (r : N) (out : bytes)                                    (* uint64ToBytes via index record value *)
 | KEncl (p k : bytes) (r : N) (inside : bool)                   (* Enc(p,0) <= Enc(k,r) < Enc(PrefixEnd p,0), real code *)
 | KRange (a b k : bytes) (r : N) (inside : bool)                (* Enc(a,0) <= Enc(k,r) < Enc(b,0), real code *)
 | KBord (cfg lo hi k : bytes) (r : N) (inside : bool).          (* Backend with Config.Prefix = cfg, nothing skipped:
@@ -40,7 +39,6 @@ Definition c10_check_raw (c : c10_case) : bool :=
   | KCmp k1 r1 k2 r2 c => Z.eqb (cmp_to_Z (bcmp (encode k1 r1) (encode k2 r2))) c
   | KPfx p out => beqb (prefix_end p) out
   | KPar b out => opt_eqb nb_eqb (parse_revision b) out
-  | KU64 r out => beqb (be64 r) out
   | KEncl p k r inside => Bool.eqb (in_bounds (encode p 0) (encode (prefix_end p) 0) (encode k r)) inside
   | KRange a b k r inside => Bool.eqb (in_bounds (encode a 0) (encode b 0) (encode k r)) inside
   | KBord cfg lo hi k r inside =>
